@@ -1,6 +1,6 @@
 (* C10 — history retention keeps a contiguous most-recent window of the configured size.
    Statements only; proofs in Proofs/BoltHistProofs.v. *)
-From Mercure Require Import Base BoltHist BoltHistProofs.
+From Mercure Require Import Base BoltHist BoltHistProofs BoltHistProofs2.
 
 (* For every size, every outcome of the probabilistic cleanup trigger at each publication, every number of
    publications, with the file closed and reopened anywhere: the retained sequence numbers are exactly
@@ -25,3 +25,43 @@ Example C10_nonvacuous :
   seqs unit (run_hist unit 3 [Pub unit true tt; Pub unit false tt; Pub unit false tt; Pub unit false tt; Reopen unit;
                               Pub unit false tt; Pub unit true tt]) = [4; 5; 6].
 Proof. vm_compute. reflexivity. Qed.
+
+(* ---- when the retention size changes at restarts (an operator edits the configuration) ---- *)
+(* whatever sizes were in force and wherever the restarts fall, the retained sequence numbers are lo..n: contiguous up to
+   the newest *)
+Theorem C10_reconfigured_contiguous : forall (A : Type) (size0 : N) (ops : list (rop A)),
+  let d := fst (rrun A size0 ops) in contiguous (d_seq A d) (seqs A d).
+Proof. exact reconf_contiguous. Qed.
+Print Assumptions C10_reconfigured_contiguous.
+
+(* so a replay from any retained entry is still complete *)
+Theorem C10_reconfigured_replay_complete : forall (A : Type) (size0 : N) (ops : list (rop A)) (s : N),
+  let d := fst (rrun A size0 ops) in
+  In s (seqs A d) -> forall s', s < s' <= d_seq A d -> In s' (seqs A d).
+Proof. exact reconf_replay_complete. Qed.
+Print Assumptions C10_reconfigured_replay_complete.
+
+(* one publication under the size in force: nothing that has fewer than size newer updates is discarded (nothing at
+   all when size = 0); nothing appears from nowhere; a cleanup that runs leaves nothing older; without one nothing goes *)
+Theorem C10_publication_keeps_recent : forall (A : Type) (size : N) (d : db A) (run : bool) (x : A) (s : N),
+  In s (seqs A d ++ [d_seq A d + 1]) -> size = 0 \/ d_seq A d + 1 - size < s -> In s (seqs A (persist A size d (run, x))).
+Proof. exact persist_keeps_recent. Qed.
+Print Assumptions C10_publication_keeps_recent.
+
+Theorem C10_publication_only_known : forall (A : Type) (size : N) (d : db A) (rx : bool * A) (s : N),
+  In s (seqs A (persist A size d rx)) -> In s (seqs A d ++ [d_seq A d + 1]).
+Proof. exact persist_only_known. Qed.
+Print Assumptions C10_publication_only_known.
+
+Theorem C10_cleanup_drops_old : forall (A : Type) (size : N) (d : db A) (x : A) (s : N),
+  contiguous (d_seq A d) (seqs A d) -> size <> 0 ->
+  In s (seqs A (persist A size d (true, x))) -> d_seq A d + 1 - size < s.
+Proof. exact persist_drops_old. Qed.
+Print Assumptions C10_cleanup_drops_old.
+
+(* non-vacuity: size 5 then 10 (nothing is lost to the larger window), then 2 with cleanup on every publication *)
+Example C10_reconfigured_nonvacuous :
+  let ops := repeat (RPub unit true tt) 7 ++ [RReopen unit (Some 10)] ++ repeat (RPub unit true tt) 2 ++
+             [RReopen unit (Some 2)] ++ [RPub unit true tt] in
+  seqs unit (fst (rrun unit 5 (firstn 10 ops))) = [3; 4; 5; 6; 7; 8; 9] /\ seqs unit (fst (rrun unit 5 ops)) = [9; 10].
+Proof. vm_compute. split; reflexivity. Qed.
